@@ -341,6 +341,19 @@ def check_close_sequence(ctx):
         ctx.ob("C09.P2", q, ok, "an exception in the read loop still runs the close sequence" if ok else "an exception in the read loop escapes: no disconnect handling, flags never reset", key="read-loop-contained", where=f.where)
         ok = cfg.path_exists(loops[0], d1[0]) and not cfg.path_exists(d1[0], loops[0])
         ctx.ob("C09.P2", q, ok, "the close sequence follows the read loop" if ok else "the close sequence does not follow the read loop", key="after-loop", where=f.where)
+        # the link is usually already down when this sequence runs (the peer closed or reset it): any other operation on it
+        # raises (ENOTCONN, EBADF) and, unless contained, ends the thread before on_disconnected and the flag resets
+        link = closer.rsplit(".", 1)[0] + "."
+        for n in cfg.real_nodes():
+            if n is loops[0] or not cfg.path_exists(loops[0], n):
+                continue
+            for c in n.calls:
+                cn = call_name(c) or ""
+                if cn.startswith(link) and cn != closer:
+                    ok = callgraph.broadly_guarded(fnode, c)
+                    ctx.ob("C09.P2", q, ok, f"`{cn}` in the close sequence is contained" if ok else
+                           f"`{norm(c)[:70]}` runs on a link that the peer may already have closed or reset; it is outside any handler, so its OSError ends the receiver thread before on_disconnected and the flag resets: the endpoint stays CONNECTED, the listener is not re-armed, disable() waits for ever",
+                           key="link-call-contained " + cn, where=f.where)
         # flag resets at the end, after on_disconnected
         resets = {}
         for n in cfg.real_nodes():
